@@ -133,7 +133,7 @@ def builder_for(ctx, nrandom):
                     out.append((b, [n]))
             return out
 
-        case = C1.build_case_model(m, {"c=%d" % c}, rnd, 0, 0, buffer_plan=plan)
+        case = C1.build_case_model(m, {"c=%d" % c}, rnd, 0, 0, buffer_plan=plan, aligned_fn=lambda r: r.choice([0, 0, 2, 4, 8]))
         case["configs"] = configs
         case["per_observation"] = True
         case["cid"] = case_seed
@@ -145,7 +145,7 @@ def builder_for(ctx, nrandom):
 def run(ctx):
     ctx.rule = RULE
     ctx.assumptions = [
-        "x86-64, g++ 12 (-O0); the aligned MemoryAccessor fast paths and non-GNU / big-endian host paths are not instantiated",
+        "x86-64, g++ 12 (-O0); 3/5 of the views are made with MakeAligned...View<2|4|8> over 16-byte aligned storage so the aligned MemoryAccessor fast paths are instantiated; non-GNU and big-endian host paths are not compiled",
         "Float values are compared by bit pattern (S() memcpy in the driver)",
     ]
     nmod = ctx.pick(24, 400)
